@@ -205,6 +205,13 @@ def _uf_full_check(ctx, uf, model, rng, opname):
     for e in elts:
         if not (e in uf):
             ctx.violation("uf_model", "contains", "missing_element", "added element not contained", elt=e)
+    # elements by insertion index, and the two indices just outside
+    for i in ([0, len(elts) - 1, rng.randrange(len(elts))] if elts else []):
+        ok, got = ctx.call("getitem", uf.__getitem__, i, monitor="uf_model")
+        ctx.check(got == elts[i] or (got is elts[i]), "uf_model", "getitem", "not_the_ith_added_element", "uf[i] is not the i-th element that was added", i=i, got=repr(got)[:40])
+    for i in (len(elts), -1):
+        ok, got = ctx.call("getitem", uf.__getitem__, i, expect=(IndexError,), monitor="uf_model")
+        ctx.check(not ok, "uf_model", "getitem", "index_outside_accepted", "uf[i] answered for an index outside [0, number of elements)", i=i, n=len(elts), got=repr(got)[:40])
     pairs = list(itertools.combinations(elts, 2)) if len(elts) <= 10 else \
         [(rng.choice(elts), rng.choice(elts)) for _ in range(30)]
     for x, y in pairs:
